@@ -423,6 +423,10 @@ Inductive xevent :=
 | XCancelDeaf (i : nat)
                       (* cancel ctx_i where the Dial started for thread i does not listen to its context:
                          while that Dial is in flight nothing may happen; otherwise an ordinary cancel *)
+| XStress (workers : nat)
+                      (* stress family: that many goroutines cycle Connection()/done() freely; observation:
+                         (thread, handle) pairs where a holder saw its handle Shutdown before its own release
+                         (o_rets), handles left open after everybody released (o_failing), panic / hang *)
 | XManager (hops : nat)
                       (* manager family: one Add / (Reconnect)* / Remove cycle of a real manager.Manager
                          on top of the real connection.Manager, for a target with that many distinct
@@ -579,6 +583,7 @@ Definition xrun (w : wst) (xe : xevent) : wst * xobs :=
         | None => run_now w (ECancel i)
         end
   | XManager _ => xignored w
+  | XStress _ => xignored w
   | XBreak h =>
       if has_handle (w_s w) h && negb (mem h (w_closed w))
       then (w, XObs (quiet_obs false w) [] [])
@@ -781,8 +786,28 @@ Fixpoint mcheck_from (n : nat) (made : list nat) (c : list (xevent * xobs)) : li
 Definition is_mgr (c : list (xevent * xobs)) : bool :=
   match c with (XManager _, _) :: _ => true | _ => false end.
 
+(** ** stress family, on the observations alone: tag 4 a holder saw the
+    connection it was handed Shutdown before its own release; tag 5 a
+    connection left open after every holder released; tag 6 panic / hang *)
+Fixpoint scheck_from (n : nat) (c : list (xevent * xobs)) : list (nat * N) :=
+  match c with
+  | [] => []
+  | (_, r) :: c' =>
+      let o := x_o r in
+      (if negb (N.eqb (o_bad o) 0) then [(n, 6%N)]
+       else match o_rets o, o_failing o with
+            | _ :: _, _ => [(n, 4%N)]
+            | [], _ :: _ => [(n, 5%N)]
+            | [], [] => []
+            end) ++ scheck_from (S n) c'
+  end.
+
+Definition is_stress (c : list (xevent * xobs)) : bool :=
+  match c with (XStress _, _) :: _ => true | _ => false end.
+
 Definition xcheck_case' (c : list (xevent * xobs)) : list (nat * N) :=
   if is_mgr c then mcheck_from 0 [] c else
+  if is_stress c then scheck_from 0 c else
   let base :=
     match unlift 0 c with
     | Some (p, bad) =>
